@@ -528,3 +528,50 @@ def collects_kernel_keys(t: Term, kernels_field: Term) -> bool:
                     and x[2] == ("iter", src):
                 return True
     return False
+
+
+def literal_of(repo: Repo, mi, e: ast.AST, depth: int = 0):
+    """ast.literal_eval that also follows names: a module-level name (here or imported from
+    another module of the package) bound to a literal, `dict(NAME)` / `NAME.copy()` of one,
+    and names used as keys / values inside the literal.  Raises ValueError if not literal."""
+    if depth > 5:
+        raise ValueError("too deep")
+
+    def resolve_name(name: str):
+        if name in mi.assigns:
+            return mi, mi.assigns[name]
+        q = repo.resolve_in(mi, name)
+        if q:
+            mod, _, nm = q.rpartition(".")
+            m2 = repo.modules.get(mod)
+            if m2 is not None and nm in m2.assigns:
+                return m2, m2.assigns[nm]
+        raise ValueError(f"unresolved name {name}")
+
+    class Sub(ast.NodeTransformer):
+        def visit_Name(self, nd):
+            m2, v = resolve_name(nd.id)
+            return ast.Constant(value=literal_of(repo, m2, v, depth + 1))
+
+        def visit_Call(self, nd):
+            f = nd.func
+            if isinstance(f, ast.Name) and f.id == "dict" and len(nd.args) == 1 and not nd.keywords:
+                return ast.Constant(value=dict(literal_of(repo, mi, nd.args[0], depth + 1)))
+            if isinstance(f, ast.Attribute) and f.attr == "copy" and not nd.args:
+                return ast.Constant(value=literal_of(repo, mi, f.value, depth + 1))
+            raise ValueError("call in literal")
+    import copy as _copy
+    tree = Sub().visit(_copy.deepcopy(e))
+
+    def build(nd):
+        if isinstance(nd, ast.Constant):
+            return nd.value
+        if isinstance(nd, ast.Dict):
+            return {build(k): build(v) for k, v in zip(nd.keys, nd.values)}
+        if isinstance(nd, (ast.Tuple, ast.List)):
+            return type(())(build(x) for x in nd.elts) if isinstance(nd, ast.Tuple) \
+                else [build(x) for x in nd.elts]
+        if isinstance(nd, ast.UnaryOp) and isinstance(nd.op, ast.USub):
+            return -build(nd.operand)
+        return ast.literal_eval(nd)
+    return build(tree)
